@@ -357,7 +357,9 @@ func TestVerif_C12_cfg(t *testing.T) {
 			}
 			line := fmt.Sprintf("c12cfg %s %d 1 %d 12 %s", stack, o, k, opsTok)
 			class := ""
-			if stack == "h3" {
+			if stack == "h3" && p.canon() == fmt.Sprintf("sni=%d alpn=3 accept=0 cert=-", c12NameID(c12UnitHost)) {
+				// exactly what the known shadowing predicts: the HTTP/3 stack dials with an EMPTY
+				// tls.Config (host as ServerName, h3 ALPN, system roots, no client certificate)
 				class = "h3-tls-shadow"
 			}
 			human := fmt.Sprintf("C()%s ; new %s connection to %s (server cert by ca-%d, onlyH1=%v)", c12HumanOps(toks), stack, c12UnitHost, k, onlyH1)
@@ -385,6 +387,13 @@ func TestVerif_C12_cfg(t *testing.T) {
 	s.Finish()
 }
 
+type c12SetCase struct {
+	line, impl string
+	ok, dwf    bool
+	nontriv    bool
+	human      string
+}
+
 func c12HumanOps(toks []string) string {
 	if len(toks) == 0 {
 		return ""
@@ -400,6 +409,7 @@ func TestVerif_C12_set(t *testing.T) {
 		"random sequences (0..9) of EnableForceHTTP1/2/3, DisableForceHttpVersion, EnableHTTP3, DisableHTTP3, EnableH2C, DisableH2C, Clone on C(); observable = (forceHttpVersion, t3 != nil, t2.AllowHTTP, DialTLSContext != nil) read from the real Transport; oracle: a forced HTTP/3 always has its round tripper; non-trivial = sequences of at least 2 setters")
 	r := s.Rand()
 	toks := []string{"f1", "f2", "f3", "uf", "e3", "d3", "eh", "dh", "cl"}
+	var setCases []c12SetCase
 	n := verifh.N(3000, 100000)
 	for i := 0; i < n; i++ {
 		c := C()
@@ -458,7 +468,25 @@ func TestVerif_C12_set(t *testing.T) {
 		if len(seq) > 0 {
 			line = "c12set 1 " + strings.Join(seq, ",")
 		}
-		s.Case(line, impl, ok, class, len(seq) >= 2, "C()."+strings.Join(seq, "."))
+		setCases = append(setCases, c12SetCase{line, impl, ok, disabledWhileForced, len(seq) >= 2, "C()." + strings.Join(seq, ".")})
+		_ = class
+	}
+	// a deviation is the KNOWN finding only when it is exactly what the un-patched DisableHTTP3
+	// (Dispatch.applySettingUnpatched) predicts
+	var ulines []string
+	for _, c := range setCases {
+		ulines = append(ulines, strings.Replace(c.line, "c12set ", "c12setu ", 1))
+	}
+	uans, err := verifh.RunModel(ulines)
+	if err != nil {
+		t.Fatalf("infrastructure: %v", err)
+	}
+	for i, c := range setCases {
+		class := ""
+		if c.dwf && c.impl == uans[i] {
+			class = "forced-h3-after-disable-panics"
+		}
+		s.Case(c.line, c.impl, c.ok, class, c.nontriv, c.human)
 	}
 	for _, must := range []string{"force=-", "force=1", "force=2", "force=3", "h3-enabled"} {
 		if c12Hist[s][must] == 0 {
